@@ -77,6 +77,33 @@ class _Builder:
         self.vars = copy.deepcopy(root.j.get("vars", []))
         self.blocks = []
         self.inlined = []
+        self.clos = {}     # local (merged numbering) -> def path of the closure it holds
+        self.alias = {}    # local -> local it is a plain copy / reference of
+
+    def _note(self, blk):
+        for s in blk["stmts"]:
+            if s["k"] != "assign" or s["lhs"]["p"]:
+                continue
+            rv = s["rv"]
+            if rv["k"] == "agg" and rv.get("closure"):
+                self.clos[s["lhs"]["l"]] = rv["closure"]
+            elif rv["k"] == "use" and rv["op"].get("k") in ("copy", "move") and rv["op"]["pl"]["p"] in ([], ["*"]):
+                self.alias[s["lhs"]["l"]] = rv["op"]["pl"]["l"]
+            elif rv["k"] == "ref" and rv["pl"]["p"] in ([], ["*"]):
+                self.alias[s["lhs"]["l"]] = rv["pl"]["l"]
+
+    def closure_of(self, op):
+        pl = op.get("pl") if op else None
+        if pl is None:
+            return None
+        l = pl["l"]
+        for _ in range(8):
+            if l in self.clos:
+                return self.clos[l]
+            if l not in self.alias:
+                return None
+            l = self.alias[l]
+        return None
 
     def add_body(self, b, lo, stack, depth):
         """append b's blocks (locals already allocated at offset lo); returns block offset"""
@@ -86,6 +113,7 @@ class _Builder:
             nb["src"] = b.path
             nb["src_file"] = b.file
             self.blocks.append(nb)
+            self._note(nb)
         # now expand calls inside the copied range
         for bi in range(bo, bo + len(b.blocks)):
             if len(self.blocks) > MAX_BLOCKS:
@@ -94,6 +122,13 @@ class _Builder:
             t = blk["term"]
             if not t or t["k"] != "call":
                 continue
+            if depth < MAX_DEPTH and callee_def(t).endswith(("Fn::call", "FnMut::call_mut", "FnOnce::call_once")) and len(t["args"]) == 2 and t.get("target") is not None:
+                # a closure value called directly (a parameter of an inlined helper that was given a closure, or a local closure)
+                cp = self.closure_of(t["args"][0])
+                cb = self.f.bodies.get(cp) if cp else None
+                if cb is not None and cp not in stack:
+                    self.inline_closure_call(bi, cb, stack | {cp}, depth + 1)
+                    continue
             if depth < MAX_DEPTH:
                 tg = self.f.call_targets(b, b.blocks[bi - bo]["term"])
                 tg = [x for x in tg if x in self.f.bodies]
@@ -116,6 +151,21 @@ class _Builder:
             self.vars.append(nv)
         return lo
 
+    def inline_closure_call(self, bi, cb, stack, depth):
+        """Fn::call(closure, (a, b, ..)): environment := the closure operand, parameters := the fields of the argument tuple"""
+        blk = self.blocks[bi]
+        t = blk["term"]
+        tup = t["args"][1]
+        args = [t["args"][0]]
+        if tup.get("pl") is not None:
+            for i in range(cb.argc - 1):
+                args.append({"k": "copy", "pl": {"l": tup["pl"]["l"], "p": list(tup["pl"]["p"]) + [".%d" % i]}})
+        t2 = dict(t)
+        t2["args"] = args
+        t2["arg_defs"] = []
+        blk["term"] = t2
+        self.inline_call(bi, cb, stack, depth)
+
     def inline_call(self, bi, cb, stack, depth):
         blk = self.blocks[bi]
         t = blk["term"]
@@ -125,6 +175,11 @@ class _Builder:
         for i, a in enumerate(t["args"]):
             if i + 1 <= cb.argc:
                 blk["stmts"].append({"k": "assign", "lhs": {"l": lo + i + 1, "p": []}, "rv": {"k": "use", "op": a}, "line": line, "dline": 0, "exp": False, "inl": "param"})
+                ds = (t.get("arg_defs") or [])
+                if i < len(ds) and ds[i] and ds[i][0] in self.f.bodies and self.f.bodies[ds[i][0]].kind == "Closure":
+                    self.clos[lo + i + 1] = ds[i][0]
+                elif a.get("pl") is not None and a["pl"]["p"] in ([], ["*"]):
+                    self.alias[lo + i + 1] = a["pl"]["l"]
         cont = t["target"]
         dest = t["dest"]
         bo = self.add_body(cb, lo, stack, depth)
